@@ -775,7 +775,7 @@ func specialC14(seed int64, thorough bool) *Special {
 	if thorough {
 		nt, conc, concRounds = 500, 16, 400
 	}
-	sp.Rule = fmt.Sprintf("%d targets: the bytes of Persist(New(batch)) from a cold builder pool (after two GCs) are compared with the bytes after 3 random build histories (bigger and smaller batches, other chunk modes, other norm functions, builds whose norm function panics half way); then %d goroutines build concurrently for %d rounds and compare with their cold bytes; non-trivial = the pool probe reported a recycled builder object right before the compared build", nt, conc, concRounds)
+	sp.Rule = fmt.Sprintf("%d targets: the bytes of Persist(New(batch)) from a cold builder pool (after two GCs) are compared with the bytes after 3 random build histories (bigger and smaller batches on both sides of the 1,024-document boundary, other chunk modes, other norm functions, builds whose norm function panics half way); then %d goroutines build concurrently for %d rounds and compare with their cold bytes; non-trivial = the pool probe reported a recycled builder object right before the compared build", nt, conc, concRounds)
 	recycled, failedBuilds := 0, 0
 	if os.Getenv("VERIF_C14_CONCURRENT_ONLY") != "" {
 		nt = 0 // the run under the race detector: only the concurrent builders
@@ -783,7 +783,12 @@ func specialC14(seed int64, thorough bool) *Special {
 	for t := 0; t < nt; t++ {
 		nd := g.smallSize()
 		cm := g.ChunkMode()
-		b := g.Batch(BatchOpts{NDocs: nd})
+		o := BatchOpts{NDocs: nd}
+		if t%8 == 5 { // a target on the other side of the 1,024-document boundary of the doc-value chunks
+			nd = 1030 + g.R.Intn(60)
+			o = BatchOpts{NDocs: nd, NFields: 2, NVocab: 4, ForceDV: true, NoStored: true}
+		}
+		b := g.Batch(o)
 		dropPool()
 		cold, _, err := buildBytes(Current, b, cm)
 		if err != nil {
@@ -794,7 +799,11 @@ func specialC14(seed int64, thorough bool) *Special {
 			hist := ""
 			steps := 1 + g.R.Intn(4)
 			for s := 0; s < steps; s++ {
-				hb := g.Batch(BatchOpts{NDocs: g.smallSize() * (1 + g.R.Intn(3))})
+				ho := BatchOpts{NDocs: g.smallSize() * (1 + g.R.Intn(3))}
+				if g.R.Intn(6) == 0 || (t%8 == 1 && s == 0) { // a build with more than 1,024 documents and doc values in the history
+					ho = BatchOpts{NDocs: 1030 + g.R.Intn(60), NFields: 2, NVocab: 4, ForceDV: true, NoStored: true}
+				}
+				hb := g.Batch(ho)
 				hcm := g.ChunkMode()
 				if g.R.Intn(6) == 0 {
 					// a failed build: an unknown chunk mode makes convert return an error
@@ -966,8 +975,15 @@ func specialC15(seed int64, thorough bool, tmp string) *Special {
 		s4b, _, _ := Current.New(b4.Documents(), HarnessNorm, g.ChunkMode())
 		pb4, _ := in.Persist(s4b)
 		s4, _ := in.LoadBytes(pb4, g.R.Intn(2))
-		segs = []segment.Segment{s0, s2, s3, s4}
-		counts := []int{len(b0), int(s2.Count()), len(b0), len(b4)}
+		// the same bytes as s0 behind a reader whose failures can be switched on and off
+		frS := &faultyReader{b: pb, failFrom: -1}
+		s5, err := Current.Load(segment.NewDataReaderAt(frS, len(pb)))
+		if err != nil {
+			sp.failf(nil, "setup load failed: %v", err)
+			continue
+		}
+		segs = []segment.Segment{s0, s2, s3, s4, s5}
+		counts := []int{len(b0), int(s2.Count()), len(b0), len(b4), len(b0)}
 		bms := []*roaring.Bitmap{bitmapOf(g.subset(len(b0), 2)), bitmapOf(g.subset(len(b0), 4)), roaring.New()}
 		bms[0].RunOptimize()
 		takeSeg := func(s segment.Segment) (sn snap) {
@@ -1017,7 +1033,7 @@ func specialC15(seed int64, thorough bool, tmp string) *Special {
 			si := g.R.Intn(len(segs))
 			seg := segs[si]
 			var what string
-			switch g.R.Intn(7) {
+			switch g.R.Intn(8) {
 			case 0: // iterate a postings list with an exclusion bitmap
 				ft := g.pickFT(fts)
 				what = "postings+except"
@@ -1076,6 +1092,56 @@ func specialC15(seed int64, thorough bool, tmp string) *Special {
 					d, _ := seg.Dictionary("body")
 					dictEntries(d.Iterator(nil, nil, nil))
 					return err
+				})
+			case 6:
+				// reads on the fault-injectable segment while its storage fails (from a random read on),
+				// after which the storage works again: a failed read must leave nothing behind
+				what = "reads(storage failing, then restored)"
+				nontriv = true
+				frS.failFrom = frS.reads + int64(g.R.Intn(4))
+				safely(func() error {
+					fseg := segs[len(segs)-1]
+					for _, f := range fseg.Fields() {
+						if d, err := fseg.Dictionary(f); err == nil {
+							ft := g.pickFT(fts)
+							if pl, err := d.PostingsList(ft.T, nil, nil); err == nil {
+								if it, err := pl.Iterator(true, true, true, nil); err == nil {
+									it.Next()
+								}
+							}
+						}
+					}
+					fseg.VisitStoredFields(0, func(string, []byte) bool { return true })
+					if rd, err := fseg.DocumentValueReader(fseg.Fields()); err == nil {
+						rd.VisitDocumentValues(0, func(string, []byte) {})
+					}
+					return nil
+				})
+				frS.failFrom = -1
+				// the same on a freshly loaded (cold) copy: its first dictionary loads meet the failure;
+				// once the storage works again it must answer exactly like the warm copy
+				safely(func() error {
+					frC := &faultyReader{b: pb, failFrom: -1}
+					cold, err := Current.Load(segment.NewDataReaderAt(frC, len(pb)))
+					if err != nil {
+						return err
+					}
+					frC.failFrom = frC.reads + int64(g.R.Intn(3))
+					safely(func() error {
+						for _, f := range cold.Fields() {
+							if d, err := cold.Dictionary(f); err == nil {
+								d.Contains([]byte("a"))
+							}
+						}
+						return nil
+					})
+					frC.failFrom = -1
+					now := takeSeg(cold)
+					if !eqW(now.dump, base[len(base)-1].dump) {
+						sp.failf(map[string]interface{}{"seed": seed, "history": h, "ops": append(append([]string(nil), hist...), what)},
+							"a freshly loaded segment whose first reads failed answers differently from a copy that never saw a failure, although the storage works again")
+					}
+					return nil
 				})
 			case 5:
 				// a merge abandoned half way (the close channel closes, or the destination fails, after
